@@ -21,10 +21,17 @@ level 2a  generated hierarchies x policy placements are loaded through the real
           evaluated on a generated database and compared with the model's
           `selectType` and, independently, with the property's own statement
           {o | type o <= T and visible o} (oracle: bypass / duplicate / missing).
-level 2b  per-query audit of the real SQL tree (`compile_ir_to_sql_tree`): no
-          raw read of a protected type's table outside the rewrite CTE whose
-          filter covers it, union CTEs read nothing raw, and every object type
-          a query reaches is reached through a rewrite CTE.  This part is an
+level 2b  per-query audit of the real IR and SQL tree (`compile_ir_to_sql_tree`):
+          no raw read of a protected type's table outside the rewrite CTE whose
+          filter covers it (reads made by a policy body itself, compiled with
+          rewrites suppressed, are recognised from the IR and allowed only inside
+          that policy's filter CTE), union CTEs read nothing raw, no set compiled
+          with policies suppressed sits outside a policy body, and every object
+          type a query reaches is reached through a rewrite CTE.  About 40% of the
+          hierarchies carry policy-in-policy material (scalar/tuple/aggregate
+          aliases, computed scalar globals, a function, direct reads of other
+          policied types inside USING) with queries mentioning the alias/global
+          before and after the type whose policy uses it.  This part is an
           audited observation per generated query, not a theorem.
 """
 from __future__ import annotations
@@ -109,8 +116,9 @@ def tuple_ex(e):
 def pol_sdl(p) -> str:
     kinds = 'all' if p['kinds'] == 'all' else ', '.join(KIND_SDL[k] for k in p['kinds'])
     when = f" when ({ex_text(tuple_ex(p['when']))})" if p.get('when') is not None else ''
+    using = p['text'] if p.get('opaque') else ex_text(tuple_ex(p['expr']))
     return (f"access policy p{p['id']}{when} {'allow' if p['allow'] else 'deny'} {kinds} "
-            f"using ({ex_text(tuple_ex(p['expr']))});")
+            f"using ({using});")
 
 
 def gen_policy(rng, pid, atoms):
@@ -130,7 +138,7 @@ def gen_policy(rng, pid, atoms):
 
 
 # ------------------------------------------------------------------ hierarchies
-def gen_hierarchy(rng, nmax=7, shape=None):
+def gen_hierarchy(rng, nmax=7, shape=None, extras=None):
     """A case: types T0..Tn-1 (index order is topological), a link holder L."""
     n = rng.randint(2, nmax)
     shape = shape or rng.choice(['tree', 'dag', 'dag', 'diamond', 'redundant'])
@@ -173,8 +181,64 @@ def gen_hierarchy(rng, nmax=7, shape=None):
     if rng.random() < 0.3:
         lpol = gen_policy(rng, pid, GLOBALS)
         lpol['on'] = n
-    return {'n': n, 'shape': shape, 'bases': bases, 'abstract': abstract, 'pols': pols, 'links': links,
-            'lpol': lpol, 'alias': rng.randrange(n), 'gobj': rng.randrange(n)}
+    c = {'n': n, 'shape': shape, 'bases': bases, 'abstract': abstract, 'pols': pols, 'links': links,
+         'lpol': lpol, 'alias': rng.randrange(n), 'gobj': rng.randrange(n)}
+    if extras if extras is not None else rng.random() < 0.4:
+        add_extras(rng, c, anc)
+    return c
+
+
+SA_KINDS = {          # scalar / tuple / aggregate aliases and globals over an object type
+    'count': ('count({T})', '{A} >= 0'),
+    'prop': ('{T}.f0', '(.f0 ?? false) in {A}'),
+    'tuple': ('(count({T}), 1)', '{A}.0 >= 0'),
+    'exists': ('exists {T}', '{A} or true'),
+    'link': ('count(L.one)', '{A} >= 0'),
+}
+
+
+def add_extras(rng, c, anc):
+    """policy-in-policy material: a non-object schema alias, a computed scalar global and a function
+    that read (policied) types, and policies whose USING expressions refer to them or to other
+    policied types directly.  Such conditions depend on the database, so these cases are `opaque`:
+    they are audited (IR + SQL) and their rewrite-map shape is compared, but not evaluated."""
+    n = c['n']
+    prot = sorted({d for p in c['pols'] for d in range(n) if d == p['on'] or p['on'] in anc[d]})
+
+    def pick():
+        return rng.choice(prot) if prot and rng.random() < 0.75 else rng.randrange(n)
+    kind = rng.choice(['count', 'prop', 'tuple', 'exists', 'link'])
+    ex = {'alias': {'kind': kind, 'on': c['links']['one'] if kind == 'link' else pick()},
+          'global': {'kind': rng.choice(['count', 'exists']), 'on': pick()},
+          'func': {'on': pick()}, 'direct': pick()}
+    c['extras'] = ex
+    pid = max([p['id'] for p in all_pols(c)] + [-1]) + 1
+    refs = rng.sample(['alias', 'alias', 'global', 'func', 'direct'], rng.choice([1, 2, 2, 3]))
+    for ref in dict.fromkeys(refs):
+        if ref == 'alias':
+            text = SA_KINDS[kind][1].format(A='SA')
+        elif ref == 'global':
+            text = SA_KINDS[ex['global']['kind']][1].format(A='(global gsc)')
+        elif ref == 'func':
+            text = 'fcnt() >= 0'
+        else:
+            text = rng.choice(['exists T{t}', 'count(T{t}) >= 0', '(.f0 ?? false) in T{t}.f0']).format(t=ex['direct'])
+        on = rng.randrange(n) if rng.random() < 0.8 else n
+        if on == n and '.f0' in text:
+            on = rng.randrange(n)
+        if ref == 'func':
+            on = n            # (altering a type in the cone of the type a function reads is refused)
+        p = {'id': pid, 'on': on, 'allow': rng.random() < 0.8, 'kinds': rng.choice([['Select'], 'all']),
+             'opaque': True, 'text': text, 'ref': ref, 'when': None, 'expr': ('true',)}
+        pid += 1
+        if on == n:
+            if c['lpol'] is None:
+                c['lpol'] = p
+            else:
+                continue
+        else:
+            c['pols'].append(p)
+    return c
 
 
 def case_sdl(c) -> str:
@@ -183,22 +247,42 @@ def case_sdl(c) -> str:
         body = []
         if not c['bases'][i]:
             body += [f'property {f} -> bool;' for f in PROPS_F]
-        body += [pol_sdl(p) for p in c['pols'] if p['on'] == i]
+        body += [pol_sdl(p) for p in c['pols'] if p['on'] == i and p.get('ref') != 'func']
         ext = (' extending ' + ', '.join(f'T{b}' for b in c['bases'][i])) if c['bases'][i] else ''
         out.append(f"{'abstract ' if c['abstract'][i] else ''}type T{i}{ext} {{ {' '.join(body)} }}")
     lk = c['links']
     lbody = [f"link one -> T{lk['one']};", f"multi link many -> T{lk['many']};",
-             f"required link req -> T{lk['req']};", 'property cnt := count(.many);',
-             'link comp := (select .one filter true);']
+             f"required link req -> T{lk['req']};"]
+    if not c.get('extras'):
+        # (the schema layer refuses computed pointers that reach a type whose policy mentions an alias)
+        lbody += ['property cnt := count(.many);', 'link comp := (select .one filter true);']
     if lk.get('uni'):
         lbody.append(f"link uni -> T{lk['uni'][0]} | T{lk['uni'][1]};")
         lbody.append(f"multi link muni -> T{lk['uni'][0]} | T{lk['uni'][1]};")
-    if c['lpol']:
+    if c['lpol'] and c['lpol'].get('ref') != 'func':
         lbody.append(pol_sdl(c['lpol']))
     out.append(f"type L {{ {' '.join(lbody)} }}")
     out.append(f"alias AL := (select T{c['alias']} filter true);")
     out.append(f"global gobj := (select T{c['gobj']} limit 1);")
+    ex = c.get('extras')
+    if ex:
+        out.append(f"alias SA := {SA_KINDS[ex['alias']['kind']][0].format(T='T%d' % ex['alias']['on'])};")
+        out.append(f"global gsc := {SA_KINDS[ex['global']['kind']][0].format(T='T%d' % ex['global']['on'])};")
     return '\n'.join(out)
+
+
+def case_ddl(c):
+    """created after the SDL migration (a function over a type cannot be created in the same
+    migration that adds policies to the type)"""
+    ex = c.get('extras')
+    if not ex:
+        return None
+    ddl = [f"create function fcnt() -> int64 using (count(T{ex['func']['on']}));"]
+    for p in all_pols(c):
+        if p.get('ref') == 'func':
+            tn = 'L' if p['on'] == c['n'] else f"T{p['on']}"
+            ddl.append(f"alter type {tn} {{ create {pol_sdl(p)[:-1]}; }};")
+    return '\n'.join(ddl)
 
 
 def all_pols(c):
@@ -521,11 +605,74 @@ def sql_units(root, pgast, cast):
     return units
 
 
+def ir_suppressed(ir, rs: RealSchema, irast, cast):
+    """Where does the IR contain object sets compiled with rewrites suppressed
+    (`ignore_rewrites`, i.e. compiled as part of an access-policy body)?
+    -> (types in the statement proper, {filter key: types in its WHERE}, {key: types elsewhere in a rewrite})"""
+    def collect(root):
+        out, stack, seen = set(), [root], set()
+        while stack:
+            n = stack.pop()
+            if isinstance(n, cast.AST):
+                if id(n) in seen or isinstance(n, (irast.TypeRef, irast.BasePointerRef)):
+                    continue
+                seen.add(id(n))
+                if isinstance(n, irast.Set) and getattr(n, 'ignore_rewrites', False):
+                    trs = [n.typeref.real_material_type]
+                    trs += list(getattr(n.typeref, 'union', None) or [])
+                    for tr in trs:
+                        tid = tr.real_material_type.id
+                        if tid in rs.idx and rs.idx[tid] < rs.n_mat:
+                            out.add(rs.idx[tid])
+                for _f, v in cast.iter_fields(n, include_meta=False):
+                    stack.append(v)
+            elif isinstance(n, (list, tuple, set, frozenset)):
+                stack.extend(n)
+            elif isinstance(n, dict):
+                stack.extend(n.values())
+        return out
+    main = collect(ir.expr)
+    in_where, stray = {}, {}
+    for (tid, incl), rw in ir.type_rewrites.items():
+        if tid not in rs.idx or rs.idx[tid] >= rs.n_mat:
+            # the CTE of a computed global: compiled once per security context; whether the
+            # policy-context copy is used by the statement proper shows in the SQL (it is inlined
+            # into whoever references it)
+            continue
+        key = (rs.idx[tid], not incl)
+        e = rw.expr
+        if isinstance(e, irast.SelectStmt) and e.where is not None and isinstance(e.result.expr, irast.TypeRoot):
+            in_where[key] = collect(e.where)
+            st = collect(e.result)
+        else:
+            st = collect(rw)
+        if st:
+            stray[key] = st
+    return main, in_where, stray
+
+
 def audit_sql(res_ast, ir, rs: RealSchema, entries, expect, pgast, cast, irast):
     """returns ([(class, message)], stats).  `entries`: abstraction of ir.type_rewrites.
     `expect`: groups of type indices the query must reach through a rewrite."""
     problems = []
     units = sql_units(res_ast, pgast, cast)
+
+    def cone_protected(t):
+        return any(rs.protected(d) for d in range(rs.n_mat) if rs.is_sub(d, t))
+    # IR: sets compiled with rewrites suppressed may only sit in the WHERE of a filter rewrite
+    # (= inside a policy body); anywhere else they are reads that escaped the policy context.
+    supp_main, supp_where, supp_stray = ir_suppressed(ir, rs, irast, cast)
+    for t in sorted(supp_main):
+        if cone_protected(t):
+            problems.append(('suppressed-read-outside-policy',
+                             f'the statement proper contains a set of type {rs.names[t]} compiled with access '
+                             f'policies suppressed (a view compiled inside a policy body was reused)'))
+    for k, ts in supp_stray.items():
+        for t in sorted(ts):
+            if cone_protected(t):
+                problems.append(('suppressed-read-outside-policy',
+                                 f'rewrite {k} contains, outside its filter condition, a set of type '
+                                 f'{rs.names[t]} compiled with access policies suppressed'))
     rw_pid = {}
     for (tid, incl), rw in ir.type_rewrites.items():
         if tid in rs.idx and rs.idx[tid] < rs.n_mat:
@@ -593,6 +740,10 @@ def audit_sql(res_ast, ir, rs: RealSchema, entries, expect, pgast, cast, irast):
                 if not rs.protected(x):
                     continue
                 in_scope = (x == t) or (not skip and rs.is_sub(x, t))
+                # reads made by the policy body itself (rewrites suppressed by design)
+                in_body = any(rs.is_sub(x, d) for d in supp_where.get((t, skip), ()))
+                if ent is not None and ent[0] == 'filter' and in_body and not in_scope:
+                    continue
                 if ent is None or ent[0] != 'filter':
                     problems.append(('raw-read-in-union-cte',
                                      f'rewrite CTE {name} for key {(t, skip)} ({ent and ent[0]}) reads the table '
@@ -706,6 +857,48 @@ def gen_queries(rng, c, rs: RealSchema, k: int):
             ('select count(L.uni)', [[L]], 'aggregate-union-type'),
             (f'select {T(r1)}[is {T(u0)} | {T(u1)}]', [], 'intersection-union-type'),
         ]
+    ex = c.get('extras')
+    if ex:
+        pool = [q for q in pool if not q[2].startswith('computed-')]
+        a_on = ex['alias']['on']
+        a_exp = [[one], [L]] if ex['alias']['kind'] == 'link' else [[a_on]]
+        g_on = ex['global']['on']
+        users = {}                 # which types' policies mention which helper
+        for p in all_pols(c):
+            if p.get('opaque'):
+                users.setdefault(p['ref'], []).append(p['on'])
+        xt = []
+        for u in dict.fromkeys(users.get('alias', []) + [r1]):
+            U = 'L' if u == L else T(u)
+            xt += [
+                (f'select ({U}, SA)', [[u]] + a_exp, 'alias-tuple-after'),
+                (f'select (SA, {U})', [[u]] + a_exp, 'alias-tuple-before'),
+                (f'select {U} {{ x := SA }}', [[u]] + a_exp, 'alias-in-shape'),
+                (f'with s := SA select ({U}, s)', [[u]] + a_exp, 'alias-with'),
+                (f'select {U} filter exists SA', [[u]] + a_exp, 'alias-in-filter'),
+                (f'select (select {U} limit 1) {{ x := SA, y := SA }}', [[u]] + a_exp, 'alias-subquery-shape'),
+            ]
+        for u in dict.fromkeys(users.get('global', []) + [r2]):
+            U = 'L' if u == L else T(u)
+            xt += [
+                (f'select ({U}, global gsc)', [[u], [g_on]], 'global-tuple-after'),
+                (f'select (global gsc, {U})', [[u], [g_on]], 'global-tuple-before'),
+                (f'select {U} {{ x := global gsc }}', [[u], [g_on]], 'global-in-shape'),
+                (f'select {U} filter exists (global gsc)', [[u], [g_on]], 'global-in-filter'),
+            ]
+        for u in dict.fromkeys(users.get('func', []) + users.get('direct', [])):
+            U = 'L' if u == L else T(u)
+            xt += [
+                (f'select ({U}, fcnt())', [[u]], 'func-tuple-after'),
+                (f'select {U} {{ x := fcnt(), y := count({T(ex["direct"])}) }}', [[u], [ex['direct']]],
+                 'func-in-shape'),
+                (f'select (count({T(ex["direct"])}), {U})', [[u], [ex['direct']]], 'direct-tuple-before'),
+            ]
+        xt += [('select SA', a_exp, 'alias-alone'), ('select global gsc', [[g_on]], 'global-scalar-alone')]
+        # these are the point of such a hierarchy: take most of the budget from them
+        take = xt if c.get('all_extras') else rng.sample(xt, min(len(xt), max(4, k - 2)))
+        rest0 = rng.sample(pool, min(len(pool), max(k - len(take), 2)))
+        return take + rest0, len(pool) + len(xt)
     must = [q for q in pool if q[2] in c.get('must', ())]
     rest = [q for q in pool if q[2] not in c.get('must', ())]
     return must + rng.sample(rest, min(max(k - len(must), 0), len(rest))), len(pool)
@@ -844,6 +1037,17 @@ def witness_cases():
         dict(base, n=3, shape='w-union-link', bases=[[], [], [1, 0]], abstract=[False] * 3,
              pols=[P(0, 2, False, 'g0')], links={'one': 0, 'many': 1, 'req': 0, 'uni': [0, 1]},
              must=['link-union-type', 'shape-union-type', 'coalesce']),
+        # policy-in-policy through a scalar alias / a computed scalar global / a function
+        dict(base, n=3, shape='w-policy-alias', bases=[[], [], []], abstract=[False] * 3,
+             pols=[P(0, 0, True, 'g0'),
+                   {'id': 1, 'on': 1, 'allow': True, 'kinds': ['Select'], 'opaque': True, 'ref': 'alias',
+                    'text': '(.f0 ?? false) in SA', 'when': None, 'expr': ('true',)},
+                   {'id': 2, 'on': 2, 'allow': True, 'kinds': ['Select'], 'opaque': True, 'ref': 'global',
+                    'text': '(global gsc) >= 0', 'when': None, 'expr': ('true',)},
+                   {'id': 3, 'on': 2, 'allow': False, 'kinds': ['Select'], 'opaque': True, 'ref': 'func',
+                    'text': 'fcnt() < 0', 'when': None, 'expr': ('true',)}],
+             extras={'alias': {'kind': 'prop', 'on': 0}, 'global': {'kind': 'count', 'on': 0},
+                     'func': {'on': 0}, 'direct': 0}, all_extras=True),
     ]
 
 
@@ -956,7 +1160,7 @@ def run(ctx: core.Ctx):
                 cases.append((d['case'], d.get('queries')))
     else:
         cases = [(w, None) for w in witness_cases()]
-        for _ in range(ctx.budget(24, 300)):
+        for _ in range(ctx.budget(22, 300)):
             cases.append((gen_hierarchy(rng), None))
     nq = ctx.budget(7, 12)
     vals_all = valuations()
@@ -986,8 +1190,13 @@ def run(ctx: core.Ctx):
         tag = hashlib.sha1(sdl.encode()).hexdigest()[:10]
         try:
             sch = env.load_schema(sdl, modname='default')
+            if case_ddl(c):
+                sch = env.run_ddl(sch, case_ddl(c), 'default')
+                sdl += '\n# then: ' + case_ddl(c)
         except edb_errors.EdgeDBError as e:
             stats['schema_errors'] += 1
+            if len(ctx.notes) < 8:
+                ctx.notes.append(f'schema rejected [{c["shape"]}]: {type(e).__name__}: {str(e)[:160]}')
             continue
         rs = RealSchema(sch, c)
         stats['hierarchies'] += 1
@@ -1067,6 +1276,10 @@ def run(ctx: core.Ctx):
             continue
         lines.append(f'S|{sline}|E')
         expect_real.append(('E', ci, tag, c, sdl, rs, entries_all, evaluator))
+        if any(p.get('opaque') for p in all_pols(c)):
+            # conditions that read the database (policy-in-policy): shape of the map and the audits only
+            stats['opaque_hierarchies'] = stats.get('opaque_hierarchies', 0) + 1
+            continue
 
         # -- evaluate the REAL plan on a database; compare with the statement itself
         objs = []          # (id, type idx, prop valuation)
@@ -1208,7 +1421,7 @@ def run(ctx: core.Ctx):
                     ok = real is not None and real[0] == 'union' and real[1] == mk
                 else:
                     ok = real is not None and real[0] == 'filter'
-                    if ok:
+                    if ok and not any(p.get('opaque') for p in all_pols(c)):
                         byid = {p['id']: p for p in all_pols(c)}
                         for val in vals_all:
                             rho = {i: pol_truth(p, val) for i, p in byid.items()}
